@@ -87,7 +87,9 @@ func (c *connection) reader() {
 				return
 			} else if n > 0 {
 				verifAt(c, "R.read", n)
-				effectiveData := curData[:n]
+				// 拷贝一份 读缓冲区会被下一次读取覆盖 已经交付的消息(body 原始报文 手机号)不能跟着变化
+				effectiveData := make([]byte, n)
+				copy(effectiveData, curData[:n])
 				msgs, err := pack.parse(effectiveData)
 				verifAt(c, "R.parsed", len(msgs), err)
 				if err != nil {
